@@ -19,6 +19,8 @@ RdTol == 4            \* rel_dist recurrence tolerance, units of 1e-8 (float rou
 AngTol == 20          \* micro-degrees
 PosTol == 2           \* returned coordinate vs logged final vector, units of 1e-6
 
+RayWarned(ray) == Len(ray.iters) = MaxIterations
+
 (* ---- one ray: events e[k] = [count, rd (1e-8), vx, vy (1e-6)] ---- *)
 RECURSIVE RayOk(_, _, _, _, _)
 (* returns the sequence of failing clause names for iterations k..Len(evs); step = current *)
@@ -40,21 +42,27 @@ RayOk(r, ray, k, step, acc) ==
           c4 == IF k > MaxIterations THEN <<"IterationCap">> ELSE <<>>
       IN RayOk(r, ray, k + 1, nstep, acc \o c1 \o c2 \o c3 \o c4)
 
+(* Conformance of the observed loop to AndOrSearch.tla (start at 0.2, step recurrence, continue /  *)
+(* stop decisions, cap of 100 iterations) - reported as CONFORMANT and counted in the evidence,   *)
+(* NOT a verdict: another search that meets the property is as good.                              *)
+RayConformant(r, ray) ==
+    Len(ray.iters) > 0 /\ RayOk(r, ray, 1, 10000000, <<>>) = <<>> /\ ray.iters[1].rd = 20000000
+
+(* Verdict clauses per ray: what the code reports about a ray must be consistent with the sample  *)
 RayClauses(r, ray) ==
     LET m == Len(ray.iters) IN
     IF m = 0 THEN <<"NoIterations">>
     ELSE
-      RayOk(r, ray, 1, 10000000, <<>>)
-      \o (IF ray.iters[1].rd # 20000000 THEN <<"SearchStart">> ELSE <<>>)
-      \o (IF <<ray.iters[m].vx, ray.iters[m].vy>> # <<ray.vx, ray.vy>> THEN <<"PointIsLastEvaluated">> ELSE <<>>)
+      (IF <<ray.iters[m].vx, ray.iters[m].vy>> # <<ray.vx, ray.vy>> THEN <<"PointIsLastEvaluated">> ELSE <<>>)
       \o (IF ray.recount # ray.iters[m].count THEN <<"CountIsExceedanceAtPoint">> ELSE <<>>)
       \o (IF ~Within(ray.angle, ray.theta, AngTol) /\ ~(ray.vx = 0 /\ ray.vy = 0) THEN <<"OnRay">> ELSE <<>>)
+      \o (IF ~RayWarned(ray) /\ ~InTol(ray.iters[m].count, r.n, r.a, r.b, r.en, r.ed) /\ r.nwarn = 0
+          THEN <<"StoppedOutsideToleranceWithoutWarning">> ELSE <<>>)
 
 RECURSIVE AllRays(_, _)
 AllRays(r, i) == IF i > Len(r.rays) THEN <<>> ELSE RayClauses(r, r.rays[i]) \o AllRays(r, i + 1)
 
 (* ---- the returned coordinates ---- *)
-RayWarned(ray) == Len(ray.iters) = MaxIterations
 (* OR: a ray result is kept iff both coordinates are below 1.1 * max(sample) (xmaxc, ymaxc,   *)
 (* 1e-6 units; rounding is monotone, ties at that resolution are flagged r.tie and skipped).  *)
 KeptRays(r) == IF r.mode = "and" THEN [i \in 1..Len(r.rays) |-> i]
@@ -76,11 +84,10 @@ CoordClauses(r) ==
       \o (IF r.mode = "or" /\ ~OrClosure(r.coords) THEN <<"Closure">> ELSE <<>>)
       \o (IF Len(r.rays) # Len(r.thetas) \/ \E i \in 1..Min2(Len(r.rays), Len(r.thetas)) : r.rays[i].theta # r.thetas[i]
           THEN <<"ThetaTable">> ELSE <<>>)
-      \o (IF r.nwarn # Cardinality({i \in 1..Len(r.rays) : RayWarned(r.rays[i])}) THEN <<"WarnIffMaxIter">> ELSE <<>>)
       (* API-level statement of the property, independent of the hook: every returned search   *)
       (* point whose ray did not warn has exceedance within tolerance                           *)
       \o (IF \E j \in 1..Min2(Min2(ns, Len(r.ptcount)), Len(KeptRays(r))) :
-               ~RayWarned(r.rays[KeptRays(r)[j]]) /\ ~InTol(r.ptcount[j], r.n, r.a, r.b, r.en, r.ed)
+               r.nwarn = 0 /\ ~InTol(r.ptcount[j], r.n, r.a, r.b, r.en, r.ed)
           THEN <<"WithinTolerance">> ELSE <<>>)
 
 (* without hook events (hooks removed / refactored away) only the API-level statement is judged: *)
@@ -113,7 +120,10 @@ Verdict(r) ==
 Init == l = 1
 Next == /\ l <= Len(TraceLog)
         /\ LET r == TraceLog[l] v == Verdict(r) IN
-             IF v = <<>> THEN TRUE ELSE PrintT(<<"VERDICT", r.id, v>>)
+             /\ (IF v = <<>> THEN TRUE ELSE PrintT(<<"VERDICT", r.id, v>>))
+             /\ (IF r.hooked /\ r.exc = "" /\ (\A i \in 1..Len(r.rays) : RayConformant(r, r.rays[i]))
+                     /\ r.nwarn = Cardinality({i \in 1..Len(r.rays) : RayWarned(r.rays[i])})
+                 THEN PrintT(<<"CONFORMANT", r.id>>) ELSE TRUE)
         /\ l' = l + 1
 Spec == Init /\ [][Next]_l
 Consumed == l = Len(TraceLog) + 1 => PrintT(<<"CONSUMED", l - 1>>)
